@@ -99,7 +99,8 @@ class Report:
             self.sample({"obligation": name, "function": func, "clause": text,
                          "verdict": res.verdict, "backend": res.backend})
 
-    def obligation(self, name, res, func="", text="", replay=None):
+    def obligation(self, name, res, func="", text="", replay=None,
+                   candidate=False):
         """record the outcome of one obligation.
 
         replay: callable(model) -> dict(inputs=..., reproduced=bool|None,
@@ -120,7 +121,18 @@ class Report:
             except Exception as e:   # the replay harness failed: keep going
                 info["detail"] = f"replay harness error: {e!r}"
         known = self._known_for(name)
-        if info["reproduced"] is False:
+        if candidate and info["reproduced"] is not True:
+            # the counter-model comes from the ground-instantiated query only
+            # (the full query was `unknown`): without a replay it is no verdict
+            if self.baseline_proved(name) and known is None:
+                info["detail"] += " [obligation was discharged on the unchanged " \
+                                  "tree; now undischarged, no replayable model]"
+            else:
+                self.unknown.append(name)
+                print(f"UNDECIDED property={self.pid} obligation={name} "
+                      f"(candidate counter-model did not replay: {info['detail']})")
+                return False
+        elif info["reproduced"] is False:
             # the real code satisfies the clause on the model's input:
             # the encoding is wrong, never a verdict about the code
             self.broken.append(f"{name}: counterexample does not replay "
@@ -150,6 +162,13 @@ class Report:
         tail = "" if info["reproduced"] else " no-failing-input-found"
         print(f"VIOLATION property={self.pid} replay={path}{tail}")
         return False
+
+    def baseline_proved(self, name):
+        path = os.path.join(ROOT, "baseline_obligations.json")
+        if not os.path.exists(path):
+            return False
+        with open(path) as f:
+            return name in json.load(f).get(self.pid, [])
 
     def canary(self, name, res):
         """a deliberately wrong clause: it must be refuted"""
@@ -212,6 +231,17 @@ class Report:
         os.makedirs(os.path.join(ROOT, "evidence"), exist_ok=True)
         with open(os.path.join(ROOT, "evidence", self.pid + ".json"), "w") as f:
             json.dump(ev, f, indent=1)
+        if os.environ.get("VERIF_WRITE_BASELINE") and not self.broken:
+            path = os.path.join(ROOT, "baseline_obligations.json")
+            base = {}
+            if os.path.exists(path):
+                with open(path) as f:
+                    base = json.load(f)
+            old = set(base.get(self.pid, [])) if self.tier != "quick" else set()
+            base[self.pid] = sorted(old | {o["name"] for o in self.obligations
+                                           if o["verdict"] == smt.PROVED})
+            with open(path, "w") as f:
+                json.dump(base, f, indent=1, sort_keys=True)
         if self.broken:
             for b in self.broken:
                 print(f"CHECKER-BROKEN property={self.pid} {b}")
